@@ -20,6 +20,12 @@ CHECKS["C14"] = {
     "technique": "direct z3 string query generated from the method's AST + CrossHair symbolic execution of the real method",
 }
 
+CHECKS["C05"] = {
+    "text": "Symbolic execution of the real dds_hash (all nested closures) under an interning ideal-hash model and an abstract struct model: totality per value skeleton (str or coded DDS error for every leaf valuation, size guard fires exactly above the symbolic option value) and collision-freedom for every pair of skeletons (hash equal => structurally equivalent modulo the documented identifications) with all leaves as solver variables (32-bit ints over their whole range, ints beyond 32 bits up to 2**39, ASCII strings <= 4, finite reals + concrete special floats). Cross-type collisions caused by the missing type tags are recorded known findings, matched by a structural rewriting predicate so that any other collision is still reported. Bounded by skeleton depth/width and leaf sizes.",
+    "design_ref": "DESIGN.md 5-C05",
+    "technique": "symbolic execution (CrossHair/z3) of dds_hash under an interning hash model; all pairs of value skeletons with symbolic leaves",
+}
+
 NOT_APPLICABLE = {}
 
 
